@@ -6,10 +6,11 @@ class Engine(DbEngine):
     prop = 'C04'
     profiles = ('debug', 'release')
     weights = {'new': 8, 'addr': 2, 'resubmit': 1, 'delete': 1.5, 'remove': 1.5, 'reopen': 1.2, 'vanish': 0.2, 'giftwrap': 0.2}
-    aspects = {'stats.bytes', 'store.offset', 'reopen', 'store.result', 'ids.hash', 'offs', 'reopen-preserves', 'ids.has', 'rebuild', 'rebuild-preserves'}
+    aspects = {'stats.bytes', 'store.offset', 'reopen', 'store.result', 'ids.hash', 'offs', 'reopen-preserves', 'ids.has', 'rebuild', 'rebuild-preserves', 'map.bytes'}
+    with_map = True
     quick = (120, 40)
     thorough = (2500, 150)
-    rule = 'histories of store/remove/delete/reopen with content sizes straddling the 2048-byte debug chunk (10, 300, 1500, 2040, 2047, 2048, 4200 bytes; multi-chunk; and contents of 65535..131072 bytes, beyond every 16-bit length) in BOTH build profiles (debug: a file growth every few stores; release: 4 MiB chunks); after EVERY op every offset ever returned by a successful store is read back and compared (hash) with what was stored, every id is looked up; reopen inserted at random positions; rebuild followed by continued use of the returned store across further growth steps. oracle: read-back equals stored bytes, offsets pairwise distinct; correspondence: exact offsets and end marker vs the model. non-trivial = history with >= 2 stores'
+    rule = 'histories of store/remove/delete/reopen with content sizes straddling the 2048-byte debug chunk (10, 300, 1500, 2040, 2047, 2048, 4200 bytes; multi-chunk; and contents of 65535..131072 bytes, beyond every 16-bit length) in BOTH build profiles (debug: a file growth every few stores; release: 4 MiB chunks); after EVERY op every offset ever returned by a successful store is read back and compared (hash) with what was stored, every id is looked up; reopen inserted at random positions; rebuild followed by continued use of the returned store across further growth steps. oracle: read-back equals stored bytes, offsets pairwise distinct; correspondence: exact offsets and end marker vs the model; BYTE LEVEL after every op: the real event.map (length, end marker, zero tail, hash of every 1 KiB block below the marker) equals the file of the byte-level model LogBytes.v (bytes_of_log of the log of the model; the theorems of LogBytesProofs.v are about this function). non-trivial = history with >= 2 stores'
     trusted = DbEngine.db_trusted
     assumptions = ['that bytes already written survive set_len/mremap growth is an OS fact: assumed by the model, observed by the harness']
 
